@@ -115,6 +115,9 @@ func genC18(cfg Config, ws *WorldSet, accepted []int, i int) C18Case {
 		}
 	}
 	iv.OutPath = ResolveOut(physCwd, in, gofile, strings.Replace(iv.OutArg, "{W}/elsewhere/modlink", "{W}/mod", 1))
+	if strings.HasPrefix(iv.OutPath, "{W}/elsewhere/modlink/") {
+		iv.OutPath = "{W}/mod" + strings.TrimPrefix(iv.OutPath, "{W}/elsewhere/modlink")
+	}
 	if iv.OutArg == "" {
 		iv.OutPath = ResolveOut(filepath.Dir(setup), filepath.Base(setup), "", "")
 	}
